@@ -170,6 +170,9 @@ func pfmMonitor(r *Rng, n int, report func(Viol)) {
 			}
 		}
 		obs := M{"class": res.class, "diff": res.diff, "steps": res.steps}
+		if mm := env.escrowMismatch(); len(mm) > 0 {
+			report(Viol{Property: "C31", What: "after a packet-forward scenario the tracked total escrow differs from what the escrow accounts hold", Input: in, Observed: M{"mismatch": mm, "class": res.class}, Requests: []M{{"f": "reset", "engine": "pfm"}, in}})
+		}
 		if len(res.overrides) > 0 {
 			report(Viol{Property: "C43", What: "an intermediate override-receiver account kept funds", Input: in, Observed: M{"balances": res.overrides}})
 		}
@@ -202,7 +205,7 @@ func init() {
 	Register(Engine{
 		Name:       "pfm",
 		MaxMonitor: 400,
-		Props:      []string{"C43"},
+		Props:      []string{"C43", "C31"},
 		New:        func() Executor { return &pfmExec{env: newPfmEnv()} },
 		Gen:        pfmGen,
 		Monitor:    pfmMonitor,
